@@ -6,6 +6,11 @@ From CV Require Import Frame.FrameSafe.
 From CV Require Import Frame.FrameStream.
 From CV Require Import Frame.FrameThms.
 From CV Require Import Frame.FrameAlloc.
+From CV Require Import Frame.FramePacked.
+From CV Require Import Frame.FramePackedProofs.
+From CV Require Import Frame.FrameSim.
+From CV Require Import Frame.FramePackedThms.
+From CV Require Import Frame.FramePackedCut.
 Open Scope Z_scope.
 
 (* Any list of messages written by Encoder.Encode (repaired: unaligned segments are refused),
@@ -100,6 +105,80 @@ Theorem C14_read_full_chunking : forall cs fin need got,
   flat (read_full_loop cs fin need got) = read_full_flat (concat cs) fin need got.
 Proof. exact read_full_loop_flat. Qed.
 Print Assumptions C14_read_full_chunking.
+
+(* ---------------------------------------------------------------- packed paths (C13 composed with C14) *)
+
+(* bufio.Reader is not modelled: packed.Reader's two questions to it (Buffered() >= 9 for the
+   fast path, Buffered() < 9 for a short read) are free oracles [orc]; "any chunking of the
+   packed stream" is "any oracle". *)
+
+(* MarshalPacked then UnmarshalPacked returns the segments *)
+Theorem C14_unmarshal_packed_marshal_packed : forall segs, count_ok segs -> segs_ok segs -> msg_bytes segs ->
+  exists p, marshal_packed segs = Ok p /\ unmarshal_packed p = Ok segs.
+Proof. exact unmarshal_packed_marshal_packed. Qed.
+Print Assumptions C14_unmarshal_packed_marshal_packed.
+
+(* any message list written by NewPackedEncoder and read by NewPackedDecoder from the
+   concatenated packed stream, every oracle, reuse on/off, any buffer state: the messages in
+   order, then io.EOF *)
+Theorem C14_decode_packed_encode_packed : forall msgs P orc hc bc ru mx,
+  max_ok mx -> Forall (pmsg_ok mx) msgs -> encode_packed_stream msgs = Ok P ->
+  exists st' outs,
+    pdecode_n (mkD (p_init orc P) hc bc ru mx) (S (length msgs)) = (st', outs)
+    /\ map fst outs = map DMsg msgs ++ [DEof].
+Proof. exact decode_packed_encode_packed. Qed.
+Print Assumptions C14_decode_packed_encode_packed.
+
+(* a packed string accepted by the one-shot decoder whose unpacked form ends strictly inside a
+   frame (a packed stream cut at a packed-item boundary that is not a frame boundary): whole
+   frames, then an error, never io.EOF *)
+Theorem C14_packed_cut_is_error : forall msgs m q tail qp orc hc bc ru mx,
+  max_ok mx -> Forall (frame_ok mx) msgs -> frame_ok mx m ->
+  frame m = q ++ tail -> q <> [] -> tail <> [] ->
+  bytes_ok qp -> unpack qp = Some (concat (map frame msgs) ++ q) ->
+  exists st' outs e,
+    pdecode_n (mkD (p_init orc qp) hc bc ru mx) (S (length msgs)) = (st', outs)
+    /\ map fst outs = map DMsg msgs ++ [DErr e] /\ (e = EReadHeader \/ e = EReadSegs).
+Proof. exact packed_cut_is_error. Qed.
+Print Assumptions C14_packed_cut_is_error.
+
+(* a packed stream cut inside a packed item (the one-shot decoder rejects the prefix): no Decode
+   call reports io.EOF before one has reported an error *)
+Theorem C14_packed_cut_inside_item_no_eof : forall qp orc hc bc ru mx n st' outs,
+  bytes_ok qp -> unpack qp = None ->
+  pdecode_n (mkD (p_init orc qp) hc bc ru mx) n = (st', outs) ->
+  no_eof_before_error (map fst outs).
+Proof. exact packed_cut_inside_item_no_eof. Qed.
+Print Assumptions C14_packed_cut_inside_item_no_eof.
+
+(* prefixes of a packed stream accepted by the one-shot decoder unpack to prefixes of the
+   unpacked stream; and the one-shot decoder is compositional *)
+Theorem C14_packed_prefix : forall qp rest U o,
+  unpack (qp ++ rest) = Some U -> unpack qp = Some o -> exists o', U = o ++ o' /\ unpack rest = Some o'.
+Proof. exact packed_prefix_unpacks_to_prefix. Qed.
+Print Assumptions C14_packed_prefix.
+
+Theorem C14_unpack_app : forall a oa b, unpack a = Some oa -> unpack (a ++ b) = option_map (app oa) (unpack b).
+Proof. exact unpack_app. Qed.
+Print Assumptions C14_unpack_app.
+
+(* C04's last sentence at the segment level: every serialisation path returns the same
+   segment list (cited by Properties_C04.v) *)
+Theorem all_paths_same_segments : forall segs mx, max_ok mx -> frame_ok mx segs -> msg_bytes segs ->
+  exists b p pe,
+    marshal segs = Ok b /\ encode true segs = Ok b /\
+    marshal_packed segs = Ok p /\ encode_packed true segs = Ok pe /\
+    unmarshal b = Ok segs /\
+    unmarshal_packed p = Ok segs /\
+    (forall cs hc bc ru, concat cs = b ->
+       exists st' log, decode1 (mkD (mkReader cs EOF) hc bc ru mx) = (st', DMsg segs, log)) /\
+    (forall orc hc bc ru,
+       exists st' log, pdecode1 (mkD (p_init orc pe) hc bc ru mx) = (st', DMsg segs, log)) /\
+    unmarshal_packed pe = Ok segs /\
+    (forall orc hc bc ru,
+       exists st' log, pdecode1 (mkD (p_init orc p) hc bc ru mx) = (st', DMsg segs, log)).
+Proof. exact FramePackedThms.all_paths_same_segments. Qed.
+Print Assumptions all_paths_same_segments.
 
 (* findings / observations kept as refuted variants *)
 (* F21: Encode as found accepts an unaligned segment: corrupt frame, panic in the packed encoder *)
